@@ -724,6 +724,48 @@ func genC03(r *rand.Rand, n int, exhaustive bool, out func(J), next func() int) 
 		}
 		out(tag(run(Spec{Graphs: gs, Query: q.text()}, false), "alias-reuse", next()))
 	}
+	// (3h) sequences of statements on one unmodified graph whose global bounds differ only below the second
+	{
+		var ts []string
+		for i, f := range []string{"00", "00.25", "00.5", "00.75", "01", "01.5"} {
+			ts = append(ts, fmt.Sprintf("/u<a>\t\"q\"@[2016-01-01T00:00:%sZ]\t/u<n%d>", f, i))
+		}
+		ts = append(ts, "/u<a>\t\"q\"@[]\t/u<b>", "/u<b>\t\"p\"@[2016-01-01T00:00:00.3Z]\t/u<a>")
+		bs := []string{"2016-01-01T00:00:00Z", "2016-01-01T00:00:00.5Z", "2016-01-01T00:00:00.3Z", "2016-01-01T00:00:01Z", "2016-01-01T00:00:00.9Z"}
+		cls := []string{`?s "q"@[?t] ?o`, `?s ?p ?o`, `?s "q"@[,] ?o`}
+		k := 0
+		for _, op := range []string{"BEFORE", "AFTER"} {
+			for i := range bs {
+				for j := range bs {
+					if i == j {
+						continue
+					}
+					k++
+					if k%3 != 0 {
+						continue
+					}
+					c := cls[k%len(cls)]
+					q1 := query{clauses: []string{c}, optional: []bool{false}, from: 1, tail: op + " " + bs[i]}
+					q2 := query{clauses: []string{c}, optional: []bool{false}, from: 1, tail: op + " " + bs[j]}
+					out(tag(run(Spec{Graphs: [][]string{ts}, Query: q2.text(), Pre: []string{q1.text()}}, false), "sequence", next()))
+				}
+			}
+		}
+	}
+	// (3i) the last clause binds nothing new and matches more than once (the triple in two FROM graphs, an interval matching
+	// two anchors), projected through aliases that carry the names of pattern bindings
+	for i := 0; i < n/16; i++ {
+		base := []string{"/u<a>\t\"p\"@[]\t/u<b>", "/u<a>\t\"q\"@[2016-01-01T00:00:00Z]\t/u<b>", "/u<a>\t\"q\"@[2016-06-01T00:00:00-08:00]\t/u<b>",
+			"/u<c>\t\"p\"@[]\t/u<d>", "/u<c>\t\"q\"@[2016-06-01T00:00:00-08:00]\t/u<d>"}
+		g0 := append(append([]string{}, base...), genTriples(r, 3)...)
+		g1 := append(append([]string{}, base...), genTriples(r, 3)...)
+		last := []string{`?s "p"@[] ?o`, `?s "q"@[2015-01-01T00:00:00Z,2018-01-01T00:00:00Z] ?o`, `?s ?p ?o`, `?s "q"@[,] ?o`}[i%4]
+		first := []string{`?s "p"@[] ?o`, `?s ?p ?o`}[(i/4)%2]
+		q := query{clauses: []string{first, last}, optional: []bool{false, false}, from: 1 + i%2}
+		q.proj = []string{"?s AS ?o, ?o AS ?v", "?o AS ?s, ?s AS ?w", "?s AS ?o, ?o AS ?s"}[i%3]
+		gsx := [][]string{g0, g1}[:q.from]
+		out(tag(run(Spec{Graphs: gsx, Query: q.text()}, false), "merge-alias", next()))
+	}
 	// (4) malformed stream: statements the front end must reject
 	bad := []string{
 		"SELECT ?nope FROM ?g0 WHERE { ?s ?p ?o };",
@@ -824,6 +866,64 @@ func genC10(r *rand.Rand, n int, exhaustive bool, out func(J), next func() int) 
 			q.optional = append(q.optional, true)
 		}
 		out(tag(run(Spec{Graphs: roundRobin(uniq, k, i%k), Query: q.text()}, false), "optional-extraction-shared", next()))
+	}
+	// a fully specified OPTIONAL clause with a temporal predicate under statement-level time bounds (inside and outside)
+	for i := 0; i < n/10; i++ {
+		gs := graphsFor(r, 1+r.Intn(2), 8+r.Intn(10))
+		var a *anchorT
+		for k := 0; k < 20; k++ {
+			a = anchorOf(r, gs)
+			if a != nil && !strings.HasSuffix(a.p, "@[]") {
+				break
+			}
+		}
+		b := anchorOf(r, gs)
+		if a == nil || b == nil {
+			continue
+		}
+		opt := a.s + " " + a.p + " " + a.o
+		if i%2 == 0 {
+			opt += " AS ?al"
+		}
+		q := query{clauses: []string{"?s " + b.p + " ?o", opt}, optional: []bool{false, true}, from: len(gs), tail: pick(r, tails)}
+		if i%3 == 0 {
+			q.clauses = append(q.clauses, "?o ?p2 ?z")
+			q.optional = append(q.optional, true)
+		}
+		out(tag(run(Spec{Graphs: gs, Query: q.text()}, false), "optional-spec3-bounds", next()))
+	}
+	// windows given by bindings inside / before OPTIONAL clauses on temporal predicates, several rows with different windows
+	optWin := [][]string{
+		{`?w "lo"@[?lo] ?x`, `OPT ?x "seen"@[?lo,] ?o`, `OPT ?x "later"@[?t] ?z`},
+		{`?w "hi"@[?hi] ?x`, `OPT ?x "seen"@[,?hi] ?o`, `OPT ?x "later"@[?t] ?z`},
+		{`?w "lo"@[?lo] ?x`, `?w "hi"@[?hi] ?x`, `OPT ?x "seen"@[?lo,?hi] ?o`, `OPT ?x "later"@[?t] ?z`},
+		{`?w "lo"@[?lo] ?x`, `?x "seen"@[?lo,] ?o`, `OPT ?x "later"@[?t] ?z`},
+	}
+	for i := 0; i < n/16; i++ {
+		ts := windowData()
+		r.Shuffle(len(ts), func(a, b int) { ts[a], ts[b] = ts[b], ts[a] })
+		k := 1 + i%2
+		q := query{from: k}
+		for _, c := range optWin[i%len(optWin)] {
+			q.clauses = append(q.clauses, strings.TrimPrefix(c, "OPT "))
+			q.optional = append(q.optional, strings.HasPrefix(c, "OPT "))
+		}
+		out(tag(run(Spec{Graphs: roundRobin(ts, k, i%k), Query: q.text()}, false), "optional-windows", next()))
+	}
+	// one sized case: 260 left rows, the OPTIONAL clause shares an anchor binding; the same instant in two zones on the two sides
+	{
+		var ts []string
+		for i := 0; i < 260; i++ {
+			ts = append(ts, fmt.Sprintf("/u<n%d>\t\"p\"@[2016-01-01T00:00:00Z]\t/u<x>", i))
+			if i%3 == 0 {
+				ts = append(ts, fmt.Sprintf("/u<n%d>\t\"q\"@[2016-01-01T01:00:00+01:00]\t/u<z%d>", i, i))
+			}
+			if i%7 == 0 {
+				ts = append(ts, fmt.Sprintf("/u<n%d>\t\"q\"@[2016-06-01T00:00:00-08:00]\t/u<y%d>", i, i))
+			}
+		}
+		q := query{clauses: []string{`?s "p"@[?t] ?o`, `?s "q"@[?t] ?z`}, optional: []bool{false, true}, from: 1}
+		out(tag(run(Spec{Graphs: [][]string{ts}, Query: q.text()}, false), "sized", next()))
 	}
 	if exhaustive {
 		// all pairs (plain first clause form, plain second clause form) with the second optional, names from a pool of 3
